@@ -958,7 +958,9 @@ async fn run_pipeline(plan: &Value, want_sample: bool) -> RunRecord {
     if let Ok(Ok(n)) = tokio::time::timeout(Duration::from_millis(5000 + slow_ms), client_rd.read(&mut tmp)).await {
         if n > 0 {
             inbuf.extend_from_slice(&tmp[..n]);
-            if let Ok(Some(_)) = ref_parse(&inbuf, 0) {
+            // only meaningful when every request already has its reply (a late reply after the
+            // bound is reported as missing, once)
+            if replies.len() >= n_expected && matches!(ref_parse(&inbuf, 0), Ok(Some(_))) {
                 rec.violate(Violation::new("C08", "more-replies-than-requests", format!("{} requests were sent but an additional reply arrived: {:?}", n_expected, String::from_utf8_lossy(&inbuf[..inbuf.len().min(80)]))));
             }
         }
